@@ -194,7 +194,8 @@ def run_unit(unit):
         return acc.out()
     if unit["stage"] == "big":
         p = _g.BIG_P
-        for k, (name, ch, und) in enumerate(_g.big_graphs()):
+        fam = [(n_, _g.BIG_P, c_, u_) for n_, c_, u_ in _g.big_graphs()] + _g.path_graphs()
+        for k, (name, p, ch, und) in enumerate(fam):
             for lab in ("pdag",) + (() if any(und) else ("generic", "tiny")):
                 A = _g.pdag_matrix(p, ch, und) if lab == "pdag" else _g.np_dag(p, ch, lab)
                 fails, n = check_graph(p, ch, und, A, "single")
@@ -240,9 +241,9 @@ def run_unit(unit):
 
 def replay(kind, case):
     if kind == "big":
-        name, ch, und = _g.big_graphs()[case["k"]]
-        A = _g.pdag_matrix(_g.BIG_P, ch, und) if case["lab"] == "pdag" else _g.np_dag(_g.BIG_P, ch, case["lab"])
-        return check_graph(_g.BIG_P, ch, und, A, "single")[0]
+        name, P_, ch, und = ([(n_, _g.BIG_P, c_, u_) for n_, c_, u_ in _g.big_graphs()] + _g.path_graphs())[case["k"]]
+        A = _g.pdag_matrix(P_, ch, und) if case["lab"] == "pdag" else _g.np_dag(P_, ch, case["lab"])
+        return check_graph(P_, ch, und, A, "single")[0]
     if kind == "wide":
         ch = _g.wide_targeted()[case["k"]]
         return check_graph(_g.WIDE_P, ch, [0] * _g.WIDE_P, _g.np_dag(_g.WIDE_P, ch, case["lab"]), "single")[0]
@@ -256,7 +257,7 @@ def describe(tier, seed):
     return {
         "technique": "exhaustive small-scope enumeration of PDAGs, nodes, node pairs and node-set triples on the real code vs bitset/recursive oracles",
         "rule": "every PDAG with acyclic directed part p<=4 (binary) and every DAG p<=4 under neg/cancel/generic/int weights and every +-1 sign assignment (thorough: + 5-node PDAGs "
-                "with <=5 edges); 7 graphs on 70 nodes whose edges sit on node indices >= 64 (collider, chains, fork, PDAGs with and without extension); wide graphs: every 10-node PDAG with <=2 edges and 80 targeted colliders mixing node indices below and above 8; per graph: pa, ch, neighbors, adj, ancestors, an, descendants, desc, chain_component for every node, na and "
+                "with <=5 edges); 7 graphs on 70 nodes whose edges sit on node indices >= 64 (collider, chains, fork, PDAGs with and without extension) and 18 long paths (undirected / directed / mixed, natural and scrambled labels, 6, 7 and 11 nodes); wide graphs: every 10-node PDAG with <=2 edges and 80 targeted colliders mixing node indices below and above 8; per graph: pa, ch, neighbors, adj, ancestors, an, descendants, desc, chain_component for every node, na and "
                 "semi_directed_paths for every ordered pair, transitive_closure (ValueError iff undirected edges), separates for every assignment "
                 "of the nodes to subsets of {S,A,B} (p<=3, overlapping => ValueError), every disjoint (S,A,B) with singleton A,B at p=4 (quick) / "
                 "every disjoint triple (thorough); non-trivial: >= 2 edges",
